@@ -199,6 +199,17 @@ def e_det(c):
         check(np.max(np.abs(got - want)) <= 1e-9 * max(float(np.max(np.abs(want))), 1e-300) + 1e-11 * big, "selection-composition", f"{k} != sum of its parts")
     cur = {k: v for k, v in gv.__dict__.items() if not isinstance(v, np.ndarray)}
     check(cur == snap, "pd-changed-gv", "")
+    # the same numeric bandwidth after the sampling rate was re-configured in this process: the output filter follows gv.fs
+    for ratio in (2.0, 0.5):
+        fs2 = fs * ratio
+        if 0.011 * fs2 <= BW <= 0.449 * fs2:
+            gv(sps=gv.sps, fs=fs2)
+            y7 = pd()
+            ref7 = lpf_ref(R * r * psum, BW, fs2)
+            gv(sps=gv.sps, fs=fs)
+            check(np.max(np.abs(y7.signal - ref7)) <= 1e-10 * max(float(np.max(np.abs(ref7))), 1e-300), "pd-filter-uses-stale-sampling-rate",
+                  f"BW={BW:.4g}: fs {fs:.4g} -> {fs2:.4g}")
+            break
     g.verify()
     g.no_alias([("PD.signal", y.signal), ("PD.noise", y.noise)])
     g.release()
